@@ -39,9 +39,9 @@ pub fn uci_struct_roundtrip<S: Src, const SIDE: u8, const KG: u8>(s: &mut S) {
     let back = u.into_move(&b);
     vnote!("fen={} move={:?} uci={:?} back={:?}", b.as_fen(), mv, u, back);
     vassert!("UCI value read back in the same position is the same move incl. its kind", back == Ok(mv));
-    vcover!("castling", m.kind == K_OO || m.kind == K_OOO);
-    vcover!("en passant", m.kind == K_EP);
-    vcover!("promotion capture", m.kind >= K_PN && p.cells[m.dst as usize] != 0);
+    vcover!("a capture (groups that can capture)", KG == KG_CASTLING || KG == KG_EP || p.cells[m.dst as usize] != 0);
+    vcover!("a promotion capture (pawn special group)", KG != KG_PSPECIAL || (m.kind >= K_PN && p.cells[m.dst as usize] != 0));
+    vcover!("a move while in check (not castling)", KG == KG_CASTLING || in_check_ref(&p));
 }
 
 fn any_uci<S: Src>(s: &mut S) -> (uci::Move, bool, u8, u8, u8) {
